@@ -83,14 +83,14 @@ pub fn oracle<T: Scalar>(kind: Kind, n: usize, h: &[T], hf: &[f64], v: &Dyn<T>, 
 
 pub fn run(ctx: &Ctx) -> CheckOutput {
     let quick = ctx.tier == Tier::Quick;
-    let n_max = if quick { 6 } else { 8 };
+    let n_max = if quick { 6 } else { 10 };
     let cap = if quick { 150_000 } else { 2_000_000 };
     let mut jobs: Vec<Job> = vec![];
     for kind in VIEWS {
         for n in 1..=n_max {
             let spec = Spec::un(kind, n, Spec::echo());
             // (a) exact scalar, TREE
-            for (alpha, depth) in [(Z3.to_vec(), (n + 4).min(if quick { 9 } else { 10 })), (Z5.to_vec(), (n + 3).min(if quick { 7 } else { 8 }))] {
+            for (alpha, depth) in [(Z3.to_vec(), (n + 4).min(if quick { 9 } else { 11 })), (Z5.to_vec(), (n + 3).min(if quick { 7 } else { 8 }))] {
                 let spec = spec.clone();
                 jobs.push(Box::new(move || {
                     let mut st = Stats::default();
